@@ -42,7 +42,9 @@ LEVEL_NOTE = ('Trusted: Coq kernel, the hand-written model Expiry.v, the corresp
               'merged sources (the overlay answering with its uncacheable on_error placeholder), refresh_before time as string or as '
               'datetime object, requests that wait for the tile lock while another request completes (ERace), and a separate stream '
               'for bulk_meta_tiles managers (run_bulk; step-level theorems only, not part of the history theorems), and a stream '
-              'that loads mapproxy.yaml files with multi-grid caches through the real configuration loader (cache_managers).')
+              'that loads mapproxy.yaml files with multi-grid caches through the real configuration loader (cache_managers).  Part of '
+              'the histories use a real WMSSource (transparent_color, on_error handlers for 500/502/503) around a scripted HTTP '
+              'client, requests with dimensions on file caches, and a symlinked mtime reference file.')
 DESIGN_REF = 'DESIGN.md section 5, C13'
 RULE = ('case = one history (backend, meta mode, initial cache with timestamps, rule, clock, upstream script, 5-14 events); '
         'non-trivial = at least one request that meets a stale or missing tile and one request that meets a fresh tile, or an '
@@ -67,6 +69,9 @@ META = (2, 2)
 REAL_PAST = 1500000000     # any mtime above this was written by the kernel clock during a request
 FILTER = 1 << 19           # what the pre_store_filter adds to the content of a created tile
 OLD_COLOUR_FILE = (BASE - 1000) * Q   # stamp of the shared files of linked single colour tiles (written "long ago")
+WMS_STATUS = {(False, False): 500, (False, True): 503, (True, True): 502}
+WMS_COLOUR = {500: (1 << 23) + 500, 503: (1 << 23) + 503, 502: (1 << 23) + 502}   # colours of the on_error images
+DIMS = {'TIME': '2020-02-02', 'ELEVATION': '7'}
 ZONES = ['UTC', 'EST-5', 'WST5']      # POSIX TZ strings: UTC, UTC+5, UTC-5 (no DST: mktime is unambiguous)
 
 SIG_STALE = 'stale-tile-not-refetched'
@@ -239,6 +244,37 @@ class Source(object):
         from mapproxy.source import SourceError
         from PIL import Image
         w = self.world
+        k, oc = self.record(query)
+        if oc[0] == 'broken':
+            return broken_source(w.opts)
+        if oc[0] == 'err':
+            raise SourceError('scripted upstream failure %d' % k)
+        if oc[0] == 'blank':
+            raise BlankImage()
+        img = Image.new('RGB', tuple(query.size), enc_colour(oc[3]))
+        src = ImageSource(img, image_opts=w.opts, cacheable=bool(oc[1]) or w.use_overlay)
+        src.authorize_stale = bool(oc[2]) and not w.use_overlay
+        return src
+
+    def retrieve(self, query, format):
+        """the HTTP client of a real WMSSource: a normal answer is an image; the on_error answers are HTTP status codes
+        that the source's error handler turns into images (500: cache False; 503: cache False, authorize_stale;
+        502: cache True, authorize_stale); everything else is an HTTP error without handler"""
+        import io
+        from mapproxy.client.http import HTTPClientError
+        from PIL import Image
+        k, oc = self.record(query)
+        if oc[0] == 'ok' and oc[1] and not oc[2]:
+            buf = io.BytesIO()
+            Image.new('RGB', tuple(query.size), enc_colour(oc[3])).save(buf, 'PNG')
+            buf.seek(0)
+            return buf
+        if oc[0] == 'ok':
+            raise HTTPClientError('scripted HTTP error', response_code=WMS_STATUS[(bool(oc[1]), bool(oc[2]))])
+        raise HTTPClientError('scripted HTTP error', response_code=404)
+
+    def record(self, query):
+        w = self.world
         bbox, size = query.bbox, query.size
         res = (bbox[2] - bbox[0]) / float(size[0])
         level = min(range(len(RES)), key=lambda i: abs(RES[i] - res))
@@ -255,17 +291,7 @@ class Source(object):
         k = len(self.calls)
         self.last_bbox = tuple(bbox)
         self.calls.append(sorted(blocks))
-        oc = outcome_of(w.script, k)
-        if oc[0] == 'broken':
-            return broken_source(w.opts)
-        if oc[0] == 'err':
-            raise SourceError('scripted upstream failure %d' % k)
-        if oc[0] == 'blank':
-            raise BlankImage()
-        img = Image.new('RGB', tuple(size), enc_colour(oc[3]))
-        src = ImageSource(img, image_opts=w.opts, cacheable=bool(oc[1]) or w.use_overlay)
-        src.authorize_stale = bool(oc[2]) and not w.use_overlay
-        return src
+        return k, outcome_of(w.script, k)
 
 
 class Overlay(object):
@@ -300,7 +326,8 @@ class Overlay(object):
 
 
 class World(object):
-    def __init__(self, base, backend, meta, script, clock, use_filter=False, use_overlay=False, use_bulk=False):
+    def __init__(self, base, backend, meta, script, clock, use_filter=False, use_overlay=False, use_bulk=False,
+                 use_wms=False, dims=None, ref_link=False):
         from mapproxy.cache.base import TileLocker
         from mapproxy.cache.tile import TileManager
         from mapproxy.grid import TileGrid
@@ -331,7 +358,20 @@ class World(object):
         if use_bulk:
             self.source.supports_meta_tiles = False      # a tiled source: bulk_meta_tiles downloads tile by tile
         self.use_overlay = use_overlay
+        self.dims = dims
+        self.ref_link = ref_link
         sources = [self.source, Overlay(self)] if use_overlay else [self.source]
+        if use_wms:
+            # a real WMSSource (transparent_color configured, on_error handlers) around the scripted HTTP client
+            from mapproxy.source.wms import WMSSource
+            from mapproxy.source.error import HTTPSourceErrorHandler
+            import logging
+            logging.getLogger('mapproxy.source.wms').setLevel(logging.ERROR)    # scripted HTTP errors are expected
+            eh = HTTPSourceErrorHandler()
+            for (cacheable, auth), code in WMS_STATUS.items():
+                eh.add_handler(code, enc_colour(WMS_COLOUR[code]), cacheable, auth)
+            sources = [WMSSource(self.source, image_opts=ImageOptions(format='image/png'), transparent_color=(255, 0, 255),
+                                 transparent_color_tolerance=0, error_handler=eh)]
         self.tm = TileManager(self.grid, self.cache, sources, 'png', self.locker, image_opts=self.opts,
                               meta_size=list(META) if meta else None, meta_buffer=0 if meta else None,
                               pre_store_filter=[make_filter(self.opts)] if use_filter else None,
@@ -343,7 +383,7 @@ class World(object):
         if self.is_file:
             from mapproxy.cache.tile import Tile
             for c in self.univ:
-                self.paths[os.path.normpath(self.cache.tile_location(Tile(c)))] = c
+                self.paths[os.path.normpath(self.cache.tile_location(Tile(c), dimensions=self.dims))] = c
 
     # -- explicit state
     def db_files(self):
@@ -361,9 +401,9 @@ class World(object):
         from mapproxy.image import ImageSource
         from PIL import Image
         img = Image.new('RGB', (TS, TS), enc_colour(content))
-        self.cache.store_tile(Tile(c, ImageSource(img, image_opts=self.opts)))
+        self.cache.store_tile(Tile(c, ImageSource(img, image_opts=self.opts)), dimensions=self.dims)
         if self.is_file:
-            p = self.cache.tile_location(Tile(c))
+            p = self.cache.tile_location(Tile(c), dimensions=self.dims)
             ns = ts_ticks * (1000000000 // Q)
             os.utime(p, ns=(ns, ns), follow_symlinks=False)
             self.restamp()
@@ -506,6 +546,22 @@ class World(object):
                 os.unlink(self.ref_file)
             except OSError:
                 pass
+            try:
+                os.unlink(self.ref_file + '.real')
+            except OSError:
+                pass
+        elif self.ref_link:
+            # the configured path is a symlink to the data file: the rule means the data file's mtime; the link itself
+            # was made long ago
+            real = self.ref_file + '.real'
+            with open(real, 'a'):
+                pass
+            ns = t * (1000000000 // Q)
+            os.utime(real, ns=(ns, ns))
+            if not os.path.islink(self.ref_file):
+                os.symlink(os.path.basename(real), self.ref_file)
+            old = OLD_COLOUR_FILE * (1000000000 // Q)
+            os.utime(self.ref_file, ns=(old, old), follow_symlinks=False)
         else:
             with open(self.ref_file, 'a'):
                 pass
@@ -590,7 +646,8 @@ def run_history_tz(ctx, h):
     base = ctx.tmpdir('w')
     steps = []
     with Patched(clock):
-        w = World(base, h['backend'], h['meta'], h['script'], clock, use_filter=bool(h.get('filter')), use_overlay=bool(h.get('overlay')), use_bulk=bool(h.get('bulk')))
+        w = World(base, h['backend'], h['meta'], h['script'], clock, use_filter=bool(h.get('filter')), use_overlay=bool(h.get('overlay')), use_bulk=bool(h.get('bulk')),
+                  use_wms=bool(h.get('wms')), dims=DIMS if h.get('dims') else None, ref_link=bool(h.get('ref_link')))
         for c, content, ts in h['init']:
             w.put_initial(tuple(c), content, ts)
         w.set_ref(h['ref'])
@@ -611,7 +668,7 @@ def run_history_tz(ctx, h):
                 before = w.dump()
                 ncalls = len(w.source.calls)
                 try:
-                    tiles = w.tm.load_tile_coords(coords)
+                    tiles = w.tm.load_tile_coords(coords, dimensions=w.dims)
                     served = []
                     for t in tiles:
                         served.append(None if t.source is None else dec_image(t.source.as_image()))
@@ -639,7 +696,7 @@ def run_history_tz(ctx, h):
                     if not _mid:
                         _mid['fired'] = True
                         try:
-                            _w.tm.load_tile_coords(_other)
+                            _w.tm.load_tile_coords(_other, dimensions=_w.dims)
                             _mid['res'] = 'served'
                         except Exception as e:  # noqa
                             _mid['res'] = classify_exc(e)
@@ -649,7 +706,7 @@ def run_history_tz(ctx, h):
                     return _orig(tile)
                 w.tm.lock = lock
                 try:
-                    tiles = w.tm.load_tile_coords(coords)
+                    tiles = w.tm.load_tile_coords(coords, dimensions=w.dims)
                     served = []
                     for t in tiles:
                         served.append(None if t.source is None else dec_image(t.source.as_image()))
@@ -674,7 +731,7 @@ def run_history_tz(ctx, h):
                 ans = []
                 for f in (w.tm.is_cached, w.tm.is_stale):
                     try:
-                        ans.append(bool(f(c)))
+                        ans.append(bool(f(c, dimensions=w.dims)))
                     except Exception as e:  # noqa
                         ans.append(classify_exc(e))
                 try:
@@ -989,9 +1046,9 @@ def bulk_histories(ctx):
                     'rule': {'time': BASE + 2}, 'expire': None, 'now': t0 + 10 * Q, 'ref': None,
                     'script': [('ok', True, False, 3), ('ok', False, False, 4), ('blank',), ('ok', True, False, 6), ('err',)],
                     'events': [('req', [b]), ('req', [a]), ('req', [a, b]), ('req', [c]), ('req', [c])]})
-    for _ in range(ctx.n(36, 400)):
+    for _ in range(ctx.n(24, 400)):
         h = gen_history(ctx.rng, ctx.quick)
-        h['bulk'], h['meta'], h['overlay'] = True, True, False
+        h['bulk'], h['meta'], h['overlay'], h['wms'] = True, True, False, False
         h['script'] = [(('err',) if oc[0] == 'broken' else oc) for oc in h['script']]
         evs = []
         for e in h['events']:
@@ -1215,6 +1272,9 @@ def gen_history(rng, quick):
     tz = rng.choice(ZONES)
     use_filter = rng.random() < 0.3
     use_overlay = rng.random() < 0.2
+    use_wms = (not use_overlay) and rng.random() < 0.25
+    use_dims = backend in ('file', 'filelink') and rng.random() < 0.3
+    ref_link = rng.random() < 0.3
     meta = rng.random() < 0.5
     level = rng.choice([1, 2, 2, 2])
     gw, gh = grid_size(level)
@@ -1259,12 +1319,16 @@ def gen_history(rng, quick):
         # two sources merged by LayerMerger: the merged image has no authorize_stale, and a blank main layer would leave
         # the overlay alone
         script = [(oc[0], oc[1], False) if oc[0] == 'ok' else (('err',) if oc[0] == 'blank' else oc) for oc in script]
+    if use_wms:
+        script = [(('err',) if oc[0] in ('blank', 'broken') else oc) for oc in script]
     # explicit contents: normally the number of the answer, sometimes the colour an existing tile already has
     for k, oc in enumerate(script):
         if oc[0] == 'ok':
             same = rng.random() < 0.15
             v = rng.choice(init)[1] - (FILTER if use_filter else 0) if same else k
             script[k] = oc + (v if v >= 0 else k,)
+            if use_wms and not (oc[1] and not oc[2]):
+                script[k] = oc + (WMS_COLOUR[WMS_STATUS[(bool(oc[1]), bool(oc[2]))]],)     # colour of the on_error image
     events = []
     cur_now = now
     last_req = None
@@ -1304,7 +1368,10 @@ def gen_history(rng, quick):
             events.append(('rule', r2, e2))
         else:
             events.append(('ref', rng.choice([None, target, cur_now, cur_now - Q, t0 + rng.randrange(-2 * Q, 3 * Q)])))
-    return {'backend': backend, 'tz': tz, 'filter': use_filter, 'overlay': use_overlay, 'meta': meta, 'init': init, 'rule': rule, 'expire': expire, 'now': now, 'ref': ref,
+    if use_dims:
+        events = [e for e in events if e[0] != 'seed']      # the seeder knows no dimensions
+    return {'backend': backend, 'tz': tz, 'filter': use_filter, 'overlay': use_overlay, 'wms': use_wms, 'dims': use_dims,
+            'ref_link': ref_link, 'meta': meta, 'init': init, 'rule': rule, 'expire': expire, 'now': now, 'ref': ref,
             'script': script, 'events': events}
 
 
@@ -1372,6 +1439,25 @@ def fixed_histories():
                         'rule': {'time': BASE + 2, 'time_obj': True}, 'expire': None, 'now': t0 + 10 * Q, 'ref': None,
                         'script': [('ok', False, False, 3), ('err',), ('ok', True, False, 5), ('broken',)],
                         'events': [('req', [a]), ('probe', a), ('req', [a, b]), ('req', [a]), ('probe', a), ('req', [c])]})
+    # a real WMSSource with transparent_color and on_error handlers (500: cache False; 503: cache False + authorize_stale),
+    # requests with dimensions on file caches, a symlinked reference file
+    for meta in (False, True):
+        out.append({'backend': 'file', 'wms': True, 'meta': meta, 'init': [(a, INIT, t0), (b, INIT + 1, t0 + 8 * Q)],
+                    'rule': {'time': BASE + 2}, 'expire': None, 'now': t0 + 10 * Q, 'ref': None,
+                    'script': [('ok', False, False, WMS_COLOUR[500]), ('ok', False, True, WMS_COLOUR[503]), ('err',),
+                               ('ok', True, False, 7)],
+                    'events': [('req', [a]), ('probe', a), ('req', [a]), ('req', [a, b]), ('req', [a]), ('req', [a])]})
+        for backend in ('file', 'filelink'):
+            out.append({'backend': backend, 'dims': True, 'meta': meta, 'init': [(a, INIT, t0), (b, INIT + 1, t0 + 8 * Q)],
+                        'rule': {'time': BASE + 2}, 'expire': None, 'now': t0 + 10 * Q, 'ref': None,
+                        'script': [('ok', True, False, 3), ('err',)],
+                        'events': [('probe', a), ('probe', b), ('req', [b]), ('req', [a, b]), ('probe', a), ('req', [a, b]),
+                                   ('race', [c], [c]), ('req', [c])]})
+        out.append({'backend': 'file', 'ref_link': True, 'meta': meta, 'init': [(a, INIT, t0), (b, INIT + 1, t0 + 8 * Q)],
+                    'rule': {'mtime': True}, 'expire': None, 'now': t0 + 10 * Q, 'ref': t0 + 2 * Q,
+                    'script': [('ok', True, False, 3)],
+                    'events': [('probe', a), ('probe', b), ('req', [a, b]), ('ref', t0 + 40 * Q), ('probe', b), ('ref', None),
+                               ('probe', b), ('ref', t0)]})
     # two requests for the same stale tile: the second decides before the first has stored and re-checks under the lock
     for backend in ('file', 'filelink', 'mbtiles', 'sqlite'):
         for meta in (False, True):
@@ -1514,7 +1600,7 @@ def jsonable(h):
 def run(ctx):
     rng = ctx.rng
     hs = load_corpus() + fixed_histories()
-    for _ in range(ctx.n(200, 2400)):
+    for _ in range(ctx.n(150, 2400)):
         hs.append(gen_history(rng, ctx.quick))
     terms, descr = [], []
     for h in hs:
@@ -1536,6 +1622,9 @@ def run(ctx):
         ctx.count('tz=' + h.get('tz', 'UTC'))
         ctx.count('pre_store_filter=%s' % bool(h.get('filter')))
         ctx.count('sources=%d' % (2 if h.get('overlay') else 1))
+        ctx.count('source=%s' % ('real WMSSource' if h.get('wms') else 'synthetic'))
+        ctx.count('dimensions=%s' % bool(h.get('dims')))
+        ctx.count('reference_file=%s' % ('symlink' if h.get('ref_link') else 'file'))
         ctx.count('meta=%s' % h['meta'])
         ctx.count('upstream_calls=%d' % min(len(ob['log']), 6))
         kind = 'none'
